@@ -376,6 +376,8 @@ def run(tier, seed, replay=None):
     rep.floor('error_replies', c['error_replies'], 5000)
     rep.floor('result_replies', c['result_replies'], 2000)
     rep.floor('add_peer_requests_accepted', c['add_peer_requests_accepted'], 15)
+    rep.floor('hostile_version_as_first_message', c['hostile_version_as_first_message'], 100)
+    rep.floor('scripthash_results_judged', c['scripthash_results_judged'], 200)
     for m in METHODS:
         if m != 'no.such.method':
             rep.floor(f'err:{m}', c[f'err:{m}'], 5)
